@@ -605,6 +605,26 @@ pub fn c07(c: &mut Collector, seed: u64, shard: u64, nshards: u64, thorough: boo
         }
         let _ = Theme::Sparse;
     }
+    // 4b. the positions the validator must REJECT (every acceptance condition violated on its critical
+    // squares, and the seeded near-misses of corpus positions): on a correct tree none is accepted and
+    // nothing happens; an unplayable position let through gets the full treatment
+    if !small {
+        let mut k = 0u64;
+        for (_, q) in fenmon::critical_square_near_misses() {
+            k += 1;
+            if k % nshards == shard {
+                run_on(c, &mut rng, "must-be-rejected", q.to_fen().as_bytes(), &mut d, n_ops, budget / 4 + 1);
+            }
+        }
+        for (i, p) in workload::corpus().iter().enumerate() {
+            if i as u64 % nshards != shard || p.chess_root_ok().is_err() {
+                continue;
+            }
+            for (_, q) in fenmon::semantic_near_misses(&mut rng, p) {
+                run_on(c, &mut rng, "must-be-rejected", q.to_fen().as_bytes(), &mut d, n_ops / 2 + 1, budget / 4 + 1);
+            }
+        }
+    }
     // 5. fixed sentinels: CPW position 3 searched with a large budget (regression sentinel for the
     //    king-capture chain), clock extremes, long repetitions
     if shard == 0 && !small {
